@@ -1587,6 +1587,9 @@ class IrregularParameterGrid(object):
         if arr.ndim != 1:
             raise ValueError(
                 'The grid property must be a 1D numpy.ndarray!')
+        if not np.all(np.diff(arr) > 0):
+            raise ValueError(
+                'The grid values must be strictly increasing!')
         self._grid = arr
 
     @property
